@@ -239,8 +239,8 @@ def _roundoff_through_discontinuity(src, new, feeds, scale, k, rel, abs_):
                         if same_array(r1[x], r2[x], scale, k, rel, abs_):
                             return None  # an input already differs beyond tolerance: not our first difference
                         a1, a2 = np.asarray(r1[x]), np.asarray(r2[x])
-                        if a1.shape != a2.shape or not np.array_equal(a1, a2, equal_nan=a1.dtype.kind == "f"):
-                            inexact = True
+                        if a1.shape != a2.shape or a1.dtype != a2.dtype or a1.tobytes() != a2.tobytes():
+                            inexact = True  # includes -0.0 vs +0.0, which the comparison rule treats as equal
                     return f"first difference at {node.op_type} output '{o}' whose inputs agree only up to round-off" if inexact else None
     return None
 
